@@ -1431,3 +1431,132 @@ fn longest_busy(ix: &Ix, a: usize) -> u64 {
 pub fn none(_scn: &Scenario, _tr: &[Ev]) -> Vec<Violation> {
     Vec::new()
 }
+
+// ------------------------------------------------------------------ C12: a failing actor fails alone
+
+fn first_actor_mentioned(detail: &str) -> Option<usize> {
+    let i = detail.find("actor ")?;
+    let rest = &detail[i + 6..];
+    let num: String = rest.chars().take_while(|c| c.is_ascii_digit()).collect();
+    num.parse().ok()
+}
+
+pub fn c12(scn: &Scenario, tr: &[Ev]) -> Vec<Violation> {
+    let ix = Ix::new(scn, tr);
+    let mut out = Vec::new();
+    // victims: every actor that panicked or failed in this execution (the designed victim is actor 0; with a
+    // deadlock-detection panic in a genuine cycle the detector decides which participant dies)
+    let victims: Vec<usize> = ix.actors.iter().enumerate().filter(|(_, a)| a.crashed() || a.start_failed() || a.run_err().is_some() || matches!(&a.on_stop_exit, Some((_, o)) if o.starts_with("Err"))).map(|(i, _)| i).collect();
+    for &vi in &victims {
+        premise();
+        let ax = &ix.actors[vi];
+        // its JoinHandle reports the panic / failure
+        if let Some((_, js)) = &ax.joined {
+            if ax.crashed() && js.variant != "Panic" {
+                v(&mut out, "C12 victim reports its panic", format!("actor {vi}: panicked but the JoinHandle gave {}", js.variant));
+            }
+            if !ax.crashed() && js.variant != "Failed" {
+                v(&mut out, "C12 victim reports its failure", format!("actor {vi}: a hook returned Err but the JoinHandle gave {}", js.variant));
+            }
+        } else if !ix.hook_stuck(vi) {
+            v(&mut out, "C12 victim's JoinHandle resolves", format!("actor {vi} crashed but its JoinHandle never resolved"));
+        }
+        // no on_stop after a panic
+        if let (Some(p), Some((s, _))) = (ax.panics.first(), ax.on_stop_called.first()) {
+            if s > p {
+                v(&mut out, "C12 no on_stop after a panic", format!("actor {vi}: on_stop at {s} after the panic at {p}"));
+            }
+        }
+        // pending and future senders get errors
+        for o in ix.sends_to(vi) {
+            match (&o.res, o.end) {
+                (None, _) => {
+                    if ax.joined.is_some() && !deadlock_panicked_op(&ix, o) {
+                        v(&mut out, "C12 victim's senders get errors", format!("op {} to crashed actor {vi} is still pending", o.op));
+                    }
+                }
+                (Some(r), Some(_)) => {
+                    if let Some((j, _)) = &ax.joined {
+                        if o.start > *j && !matches!(r, Res::Err { .. }) {
+                            v(&mut out, "C12 victim's later senders get errors", format!("op {} to crashed actor {vi} -> {r:?}", o.op));
+                        }
+                    }
+                }
+                _ => {}
+            }
+        }
+    }
+    // every other actor keeps satisfying the other properties
+    let survivors: Vec<usize> = (0..ix.actors.len()).filter(|a| !victims.contains(a)).collect();
+    let monitors: [(&str, fn(&Scenario, &[Ev]) -> Vec<Violation>); 7] = [("C01", c01), ("C02", c02), ("C03", c03), ("C04", c04), ("C05", c05), ("C08", c08), ("C11", c11)];
+    for (name, m) in monitors {
+        for x in m(scn, tr) {
+            if let Some(a) = first_actor_mentioned(&x.detail) {
+                if survivors.contains(&a) {
+                    out.push(Violation { clause: format!("C12 survivor still satisfies {name}: {}", x.clause), detail: x.detail });
+                }
+            }
+        }
+    }
+    // dead-letter accounting is exact for everybody, victim included
+    for x in c13(scn, tr) {
+        out.push(Violation { clause: format!("C12 dead-letter accounting intact: {}", x.clause), detail: x.detail });
+    }
+    // survivors never die
+    for &a in &survivors {
+        let ax = &ix.actors[a];
+        if ax.spawned.is_some() && (ax.joined.is_some() || !ax.on_stop_called.is_empty()) && ix.first_stop(a).is_none() && ix.first_kill(a).is_none() {
+            v(&mut out, "C12 peers keep running", format!("actor {a} ended although only other actors failed"));
+        }
+    }
+    // follow-up traffic between survivors succeeds (asks issued after t=30 by client 2 and by the survivors' handlers)
+    for o in ix.ops.iter() {
+        let (Some(t), Some(k)) = (o.target, o.send_kind()) else { continue };
+        if o.t0 >= 30 && survivors.contains(&t) && k.is_ask() {
+            let from_survivor = match o.owner {
+                Some(ow) if ow < ix.nc => true,
+                Some(ow) => ix.owner_actor(ow).map(|a| survivors.contains(&a)).unwrap_or(true),
+                None => true,
+            };
+            if from_survivor {
+                premise();
+                if !matches!(o.res, Some(Res::Rep { .. })) {
+                    v(&mut out, "C12 survivors still serve each other", format!("op {} (ask to actor {t} after the crash) -> {:?}", o.op, o.res));
+                }
+            }
+        }
+    }
+    // framework-wide state: ids still advance and stay unique, graph empty, lock not poisoned
+    let mut raws: Vec<(usize, u64)> = ix.actors.iter().enumerate().filter_map(|(i, a)| a.spawned.map(|p| (p, a.raw.unwrap_or(0)))).map(|(p, r)| (p, r)).collect();
+    raws.sort();
+    for w in raws.windows(2) {
+        if w[1].1 <= w[0].1 {
+            v(&mut out, "C12 id allocation intact", format!("ids do not advance: {:?}", raws));
+        }
+    }
+    for e in tr {
+        if let EvK::LockPoisoned { poisoned: true } = &e.k {
+            v(&mut out, "C12 wait-for lock not poisoned", "the wait-for graph mutex is poisoned after the run".into());
+        }
+    }
+    if let Some(g) = tr.iter().rev().find_map(|e| if let EvK::Graph { edges } = &e.k { Some(edges.clone()) } else { None }) {
+        let asks = actor_asks(&ix);
+        let pending = asks.iter().any(|(k, a, _)| ix.ops[*k].end.is_none() && !deadlock_panicked(&ix, &ix.ops[*k]) && ask_live_until(&ix, &ix.ops[*k], *a) >= tr.len());
+        if !g.is_empty() && !pending {
+            v(&mut out, "C12 wait-for graph not corrupted", format!("graph after the run: {g:?}"));
+        }
+    }
+    // a panic that is neither injected nor a deadlock report means the framework itself broke
+    for (p, e) in tr.iter().enumerate() {
+        if let EvK::Panic { msg, loc } = &e.k {
+            if !msg.starts_with("injected:") && !msg.starts_with("Deadlock detected") {
+                v(&mut out, "C12 no collateral panic", format!("unexpected panic at {p}: {msg} ({loc})"));
+            }
+        }
+    }
+    out
+}
+
+fn deadlock_panicked_op(ix: &Ix, o: &OpRec) -> bool {
+    deadlock_panicked(ix, o)
+}
